@@ -7,6 +7,7 @@ import Heathcliff.Proofs.C20H
 import Heathcliff.Proofs.C20I
 import Heathcliff.Proofs.C20J
 import Heathcliff.Proofs.C20K
+import Heathcliff.Proofs.C20M
 
 /- Property C20: homomorphic matrix products and convolutions equal plaintext ones, all shapes.
    Property theorems only (proofs are the helper lemmas of Heathcliff/Proofs/C20*.lean). -/
@@ -227,9 +228,8 @@ theorem bolt_rot_mod {α : Type} (n s : Nat) (v : Nat → α) (i : Nat) : c20_ro
   HC.c20_rot_mod n s v i
 
 /-! ### BOLT: the MODEL of the three helpers (`Model/Matmul.lean`: encode maps, rotation schedules on slot vectors, decode maps) is
-     compared with the code bit for bit (`bolt_*_encx/encw/enco/run` lines).  Proved about the model: the slot actions and the
-     baby-step / giant-step algebra of `bolt_cp`.  The end-to-end statements below are concrete statements about the model
-     (they replace the former schema `BoltStatement`); they are NOT proved. -/
+     compared with the code bit for bit (`bolt_*_encx/encw/enco/run` lines).  Proved about the model: the slot actions, the
+     baby-step / giant-step algebra and the end-to-end statements below (they replace the former schema `BoltStatement`). -/
 
 /-- `rotate_rows` by `a` whole columns, read at column `c`, entry `j` (slot = column·gap + entry, N = 2·half·gap) -/
 theorem bolt_rotRows_col : type_of% @HC.c20_rotRows_col := @HC.c20_rotRows_col
@@ -248,12 +248,50 @@ theorem bolt_shift_lt : type_of% @HC.c20_boltShift_lt := @HC.c20_boltShift_lt
 theorem bolt_shift_split : type_of% @HC.c20_boltShift_split := @HC.c20_boltShift_split
 theorem bolt_shift_step : type_of% @HC.c20_shift_step := @HC.c20_shift_step
 
-/-- End-to-end statement for `MatmulBoltCp` over the MODEL, any commutative ring (S = ZMod t: the product modulo t): NOT proved -/
+/-- End-to-end statement for `MatmulBoltCp` over the MODEL, any commutative ring (S = ZMod t: the product modulo t), for every helper
+    the model's constructor accepts, with the baby-step / giant-step split its search returns.  `N < 2^64` is the `usize` range (the
+    model's `ceilTwoPower` makes at most 64 doublings, as the code's arithmetic lives in `usize`); it was missing in the first
+    version of this statement. -/
 def BoltCpStatement : Prop :=
-  ∀ (S : Type) [CommRing S] (m r n N : Nat) (h : BoltCp) (x w : Nat → S), BoltCp.new m r n N = .ok h → (∃ e, N = 2^e) →
+  ∀ (S : Type) [CommRing S] (m r n N : Nat) (h : BoltCp) (x w : Nat → S), BoltCp.new m r n N = .ok h → (∃ e, N = 2^e) → N < 2^64 →
     ∃ X W Y out, boltCpEncodeInputs h 0 x (m * r) = .ok X ∧ boltCpEncodeWeights h 0 w (r * n) = .ok W ∧
       boltCpMultiply h (· + ·) (· * ·) 0 X W = .ok Y ∧ boltCpDecodeOutputs h 0 Y = .ok out ∧
       ∀ i j, i < m → j < n → out.getD (i * n + j) 0 = ∑ k ∈ range r, x (i * r + k) * w (k * n + j)
+
+/-- ... PROVED -/
+theorem BoltCpStatement_proof : BoltCpStatement := by
+  intro S _ m r n N h x w hnew hpow hN
+  obtain ⟨X, W, Y, out, h1, h2, h3, h4, _, h6⟩ := HC.c20_boltCp_new hnew hpow hN x w
+  exact ⟨X, W, Y, out, h1, h2, h3, h4, h6⟩
+
+/-- **`MatmulBoltCp`, whole pipeline** for EVERY helper with `N = s·gap`, `s = irc·orc = 2·half`, `orc` even, `0 < m ≤ gap`
+    (the bundle `c20_CpOK`: any shape, any such split, not only the searched one): encode inputs → encode weights → the
+    rotate-multiply-accumulate schedule of `multiply` (baby steps on the inputs, one product per rotation class and polynomial pair,
+    optional accumulators, giant-step tail with the half sum) → decode  =  `x · w` -/
+theorem bolt_cp_whole : type_of% @HC.c20_boltCp_whole := @HC.c20_boltCp_whole
+/-- ... for the helpers `MatmulBoltCp::new` returns (the split search returns a power of two below `s`) -/
+theorem bolt_cp_new : type_of% @HC.c20_boltCp_new := @HC.c20_boltCp_new
+/-- `MatmulBoltCp::new` establishes `c20_CpOK` -/
+theorem bolt_cp_new_ok : type_of% @HC.c20_boltCpNew_ok := @HC.c20_boltCpNew_ok
+/-- `MatmulBoltCpSmall::multiply` on arbitrary input / weight polynomials -/
+theorem bolt_cp_multiply_spec : type_of% @HC.c20_cpMulPart_spec := @HC.c20_cpMulPart_spec
+/-- the giant-step tail of `multiply` -/
+theorem bolt_cp_tail_spec : type_of% @HC.c20_cpTail_spec := @HC.c20_cpTail_spec
+
+/-- non-vacuity: the constructor accepts, e.g., 3×9·9×9 at N = 32 with (gap, s, irc, orc) = (4, 8, 2, 4) (baby steps, rotating giant
+    steps and the half sum all occur); the hypotheses of `bolt_cp_new` are satisfiable -/
+example : BoltCp.new 3 9 9 32 = .ok ⟨32, 3, 3, 9, 9, 4, 8, 2, 4⟩ := by rfl
+example (x w : Nat → ℤ) := bolt_cp_new (show BoltCp.new 3 9 9 32 = .ok ⟨32, 3, 3, 9, 9, 4, 8, 2, 4⟩ by rfl) ⟨5, rfl⟩
+  (by decide) x w
+/-- ... and the model's pipeline on that shape over ℤ/97 (x[i] = 7i + 3, w[i] = 11i + 5): entry (2, 8) is Σ_k x[2·9 + k]·w[9k + 8] -/
+example : (do
+    let h ← BoltCp.new 3 9 9 32
+    let X ← boltCpEncodeInputs h 0 (fun i => (7 * i + 3) % 97) 27
+    let W ← boltCpEncodeWeights h 0 (fun i => (11 * i + 5) % 97) 81
+    let Y ← boltCpMultiply h (fun a b => (a + b) % 97) (fun a b => (a * b) % 97) 0 X W
+    let out ← boltCpDecodeOutputs h 0 Y
+    pure (out.getD 26 0)) = .ok (((List.range 9).map fun k => ((7 * (18 + k) + 3) % 97) * ((11 * (9 * k + 8) + 5) % 97)).sum % 97) := by
+  decide +kernel
 
 /-- ... for `MatmulBoltCcCr`: NOT proved -/
 def BoltCcCrStatement : Prop :=
